@@ -206,6 +206,8 @@ def judge(spec, result, solos):
                 viols.append({"kind": "diverge:tokens", "actor": i, "op": k, "detail": "token-level event log under the schedule differs from the log alone", "first_token_diff": _first_tok_diff(r.get("toklog"), s.get("toklog"))})
     for lk in result.get("leaks") or []:
         viols.append({"kind": "leak", "actor": lk["seen_by"], "op": lk["op"], "detail": "marker %r owned by actor %d is visible in a result of actor %d" % (lk["marker"], lk["owner"], lk["seen_by"])})
+    if result.get("foreign_lexer_calls"):
+        viols.append({"kind": "leak", "detail": "a lexer instance created for one actor's parser was driven %d times by another actor's parse" % result["foreign_lexer_calls"]})
     if result.get("cross_shared"):
         viols.append({"kind": "shared-nodes", "detail": "%d node objects are reachable from ASTs of two different actors" % result["cross_shared"]})
     return viols
